@@ -68,8 +68,16 @@ def main(argv):
     for name, src, feats in programs(ck):
         try:
             ast.parse(src)
-        except SyntaxError:
+        except (SyntaxError, ValueError, RecursionError):
             ck.count("skipped_not_valid_python"); continue
+        try:
+            compile(src, "<src>", "exec")
+            compiles = True
+        except (SyntaxError, ValueError, RecursionError):
+            # parses but CPython refuses to compile it (illegal placement, bare starred ...): not a valid
+            # script; C08 demands rejection for the listed cases, C02 demands nothing
+            compiles = False
+            ck.count("source_parses_but_does_not_compile")
         cfgs = gen_prog.CONFIGS if ck.tier == "thorough" else [gen_prog.CONFIGS[(len(src) + j * 3) % 8] for j in range(3)]
         for cfg in cfgs:
             v, text = observe(ol, src, cfg)
@@ -78,8 +86,10 @@ def main(argv):
             for f in feats:
                 if f.startswith("injected:") or f in ("curated", "stdlib-stripped"):
                     ck.count("stream:" + f.split(":")[0])
-            if v.startswith("fail"):
-                kf = inject.match_known(known, src, v)
+            if v.startswith("fail") and not compiles:
+                ck.count("not_demanded:source_does_not_compile")
+            elif v.startswith("fail"):
+                kf = inject.match_known(known, src, v, "C02")
                 if kf:
                     ck.count("attributed_to_" + kf)
                 else:
